@@ -8,6 +8,8 @@ import itertools
 from datetime import datetime
 from fractions import Fraction
 
+import json
+
 from mc import core, par
 from mc.ref import cosem as RC
 from mc.ref import p1 as RP
@@ -81,6 +83,8 @@ def check_block(lines_sets, eol="\r\n", blank_every=0, ident=b"/ABC5xyz") -> lis
 
     text = render(lines_sets, eol, blank_every)
     block = text.encode("ascii")
+    if len(block) < 300:
+        par.beat(json.dumps({"lines": lines_sets, "eol": eol, "blank_every": blank_every, "ident": ident.decode()}))
     flat = [s for line in lines_sets for s in line]
     errs = []
     try:
@@ -90,6 +94,23 @@ def check_block(lines_sets, eol="\r\n", blank_every=0, ident=b"/ABC5xyz") -> lis
     got = [(ds.address, [(v.value, v.unit) for v in ds.values]) for ds in parsed]
     if got != flat:
         errs.append(f"parsed data sets {got!r:.160} != transmitted {flat!r:.160}")
+    # the caller owns what parse returned: edit every object of it, then parse the same block again
+    try:
+        for ds in list(parsed):
+            for v in list(ds.values):
+                v.value, v.unit = "0", ("Wh" if v.unit != "Wh" else "kWh")
+            ds.values.clear()
+            ds.address = "0-0:0.0.0"
+        parsed.clear()
+    except (AttributeError, TypeError):  # immutable results are fine
+        pass
+    try:
+        again = dlde.parse_p1_readout_content(bytes(bytearray(block)))
+        got2 = [(ds.address, [(v.value, v.unit) for v in ds.values]) for ds in again]
+    except Exception as ex:  # noqa: BLE001
+        got2 = f"raised {type(ex).__name__}: {ex}"
+    if got2 != flat:
+        errs.append(f"after the caller edited the objects of the first result, parsing the same block again gives {got2!r:.160} != transmitted {flat!r:.160}")
     ref = RP.exact_parse(text)
     assert ref == flat, (ref, flat)
     want = expected_decode(flat)
@@ -100,6 +121,9 @@ def check_block(lines_sets, eol="\r\n", blank_every=0, ident=b"/ABC5xyz") -> lis
     except Exception as ex:  # noqa: BLE001
         return errs + [f"decode_p1_readout_content raised {type(ex).__name__}: {ex} for {block!r:.100}"]
     errs += [f"decode_p1_readout_content: {e}" for e in dict_errs(d_content, want)]
+    scr = dlde.decode_p1_readout_content(block)
+    scr.clear()  # the caller changes a result; decoding again must give the same values
+    errs += [f"second decode_p1_readout_content: {e}" for e in dict_errs(dlde.decode_p1_readout_content(bytes(bytearray(block))), want)]
     # whole readout
     R = ident + eol.encode() + block + b"!" + eol.encode()
     R = R[:-len(eol)] + RP.crc_text(R[:R.index(b"!") + 1]) + eol.encode() if True else R
